@@ -118,6 +118,7 @@ func init() {
 	for k, v := range threadStubs {
 		stubs[k] = v
 	}
+	registerExecStubs()
 }
 
 func stubNop(p *path, _ *frame, a []value) value { return nil }
